@@ -7,6 +7,8 @@ out=$wt/_out
 [ -f "$out/patch.diff" ] || { echo "no patch.diff in $out"; exit 2; }
 mapfile -t L < "$out/demo_path.txt"
 dest=${L[0]}; pkg=${L[1]}; re=${L[2]}
+# optional fourth line: environment the demonstration needs (e.g. CGO_ENABLED=0 ...)
+if [[ "${L[3]:-}" =~ ^([A-Z_]+=[^[:space:]]+) ]]; then export DEMO_ENV="${BASH_REMATCH[1]}"; fi
 mkdir -p /tmp/confirm-src/$name
 cp "$out"/patch.diff "$out"/*_test.go "$out"/demo_path.txt "$out"/meta.json /tmp/confirm-src/$name/ 2>/dev/null
 /verif/tools/confirm_seeded.sh "$name" /tmp/confirm-src/$name "$dest" "$pkg" "$re"
